@@ -51,7 +51,58 @@ type C06Cmd struct {
 	Secs   int
 	Val    string
 	Failed bool // answered with an injected error instead of being executed
-	Reset  bool // (with Failed) the connection was closed without a reply instead: ONE attempt of the client, which re-sends a command up to 3 times
+	Reset  bool // (with Failed) ONE attempt of a call the client re-sends (up to 3 times): the connection was closed without a reply, or the error reply is one of those go-redis re-sends after (LOADING, READONLY, CLUSTERDOWN, TRYAGAIN, max number of clients)
+	Err    string // the error reply ("" for a closed connection)
+	Real   bool   // (with Failed) not injected: the server itself refused the GET because the key holds a value of another type (WRONGTYPE)
+}
+
+// C06Texts: the error replies a fault can be answered with (index 0 = the
+// default). Real Redis texts; the client treats some of them specially.
+var C06Texts = []string{
+	"ERR c06 injected fault",
+	"WRONGTYPE Operation against a key holding the wrong kind of value",
+	"LOADING Redis is loading the dataset in memory",
+	"BUSY Redis is busy running a script. You can only call SCRIPT KILL or SHUTDOWN NOSAVE.",
+	"NOAUTH Authentication required.",
+	"MOVED 3999 127.0.0.1:6381",
+	"ASK 3999 127.0.0.1:6381",
+	"CLUSTERDOWN The cluster is down",
+	"READONLY You can't write against a read only replica.",
+	"OOM command not allowed when used memory > 'maxmemory'.",
+	"TRYAGAIN Multiple keys request during rehashing of slot",
+	"MISCONF Redis is configured to save RDB snapshots, but it is currently not able to persist on disk.",
+	"NOPERM this user has no permissions to run the 'get' command",
+	"ERR max number of clients reached",
+	"MASTERDOWN Link with MASTER is down and replica-serve-stale-data is set to 'no'.",
+}
+
+// C06Retryable: go-redis re-sends a command answered with this error reply
+// (error.go shouldRetry), backing off on the (virtual) clock in between.
+func C06Retryable(txt string) bool {
+	if txt == "ERR max number of clients reached" {
+		return true
+	}
+	for _, p := range []string{"LOADING ", "READONLY ", "CLUSTERDOWN ", "TRYAGAIN "} {
+		if strings.HasPrefix(txt, p) {
+			return true
+		}
+	}
+	return false
+}
+
+// C06Text maps a generated index to the reply text. For cluster-type clients
+// only texts the ClusterClient hands back as they are: it follows MOVED / ASK to
+// the named address, re-reads its slot table on READONLY and marks nodes as
+// failing on LOADING, on its own clock and goroutines.
+func C06Text(i int, clusterClient bool) string {
+	if i < 0 {
+		i = -i
+	}
+	txt := C06Texts[i%len(C06Texts)]
+	if clusterClient && (C06Retryable(txt) || strings.HasPrefix(txt, "MOVED ") || strings.HasPrefix(txt, "ASK ")) {
+		return C06Texts[0]
+	}
+	return txt
 }
 
 // C06Srv is a miniredis instance with fault injection and a command log.
@@ -62,6 +113,7 @@ type C06Srv struct {
 	prefixes []string // only commands on keys with one of these prefixes belong to the running case
 	mode     string   // "" | down | get | slowget | set | del, or one of these prefixed with "rst" (connection closed without a reply) or "rst1" (the same, for one command only)
 	filt     string   // "" or first byte of the keys the fault applies to
+	txt      string   // error reply of the fault ("" = C06Texts[0])
 	log      []C06Cmd
 	injected int
 	resets   int // attempts answered by closing the connection
@@ -161,6 +213,13 @@ func (s *C06Srv) hook(c *server.Peer, cmd string, args ...string) bool {
 	default:
 		return false
 	}
+	wrongType := false
+	if cmd == "GET" {
+		// the real thing: the key holds a hash / list / set - the server itself answers WRONGTYPE
+		if t := s.M.Type(e.Keys[0]); t != "" && t != "string" {
+			wrongType = true
+		}
+	}
 	s.mu.Lock()
 	if !s.ours(e.Keys) {
 		// a straggler of an earlier case (a command whose client gave up after
@@ -169,22 +228,38 @@ func (s *C06Srv) hook(c *server.Peer, cmd string, args ...string) bool {
 		return false
 	}
 	e.Failed = s.matches(cmd, e.Keys)
+	cut := false
 	if e.Failed && strings.HasPrefix(s.mode, "rst") {
 		// connection-level fault: no reply, the peer's connection is closed
-		e.Reset = true
+		e.Reset, cut = true, true
 		s.resets++
 		if strings.HasPrefix(s.mode, "rst1") {
 			s.mode, s.filt = "", "" // one command only: the client's own re-send goes through
 		}
 	} else if e.Failed {
-		s.injected++
+		e.Err = s.txt
+		if e.Err == "" {
+			e.Err = C06Texts[0]
+		}
+		if C06Retryable(e.Err) {
+			e.Reset = true // the client re-sends after this reply
+			s.resets++
+		} else {
+			s.injected++
+		}
+	} else if wrongType {
+		e.Failed, e.Real, e.Err = true, true, C06Texts[1]
+		s.injected++ // the circuit breaker counts it like any failure
 	}
 	slow := e.Failed && s.mode == "slowget"
 	s.log = append(s.log, e)
 	s.mu.Unlock()
-	if e.Reset {
+	if cut {
 		c.Close()
 		return true
+	}
+	if e.Real {
+		return false // the server answers by itself
 	}
 	if slow {
 		// the failing GET takes a while (real time: this goroutine is outside
@@ -193,7 +268,7 @@ func (s *C06Srv) hook(c *server.Peer, cmd string, args ...string) bool {
 		time.Sleep(3 * time.Millisecond)
 	}
 	if e.Failed {
-		c.WriteError("ERR c06 injected fault")
+		c.WriteError(e.Err)
 		return true
 	}
 	return false
@@ -261,10 +336,13 @@ func (s *C06Srv) WouldFail(cmd string, keys []string) bool {
 	return s.matches(cmd, keys)
 }
 
-// SetFault sets the fault mode ("" clears it).
-func (s *C06Srv) SetFault(mode, filt string) {
+// SetFault sets the fault mode ("" clears it) with the default error reply.
+func (s *C06Srv) SetFault(mode, filt string) { s.SetFaultText(mode, filt, "") }
+
+// SetFaultText: as SetFault, the matching commands are answered with txt.
+func (s *C06Srv) SetFaultText(mode, filt, txt string) {
 	s.mu.Lock()
-	s.mode, s.filt = mode, filt
+	s.mode, s.filt, s.txt = mode, filt, txt
 	s.mu.Unlock()
 }
 
@@ -298,7 +376,7 @@ func (s *C06Srv) Injected() int {
 func (s *C06Srv) Reset(prefixes ...string) {
 	s.M.FlushAll()
 	s.mu.Lock()
-	s.mode, s.filt, s.log, s.injected, s.resets, s.prefixes = "", "", nil, 0, 0, prefixes
+	s.mode, s.filt, s.txt, s.log, s.injected, s.resets, s.prefixes = "", "", "", nil, 0, 0, prefixes
 	s.mu.Unlock()
 }
 
